@@ -21,9 +21,10 @@ def offset(p, scheme):
     return sum(p[772:776]) % 728 + 776
 
 
-def make_p1(key, body1528, scheme):
-    """a digest-bearing packet 1: 4 zero bytes, version, 1528 bytes of content with the digest written in"""
-    p = bytearray(b"\x00\x00\x00\x00" + bytes([128, 0, 7, 2]) + body1528)
+def make_p1(key, body1528, scheme, head8=None):
+    """a digest-bearing packet 1: 4 time bytes, 4 version bytes (the library writes zero time and 128.0.7.2; a peer may write
+    anything - the digest schemes do not depend on them), 1528 bytes of content with the digest written in"""
+    p = bytearray((head8 or (b"\x00\x00\x00\x00" + bytes([128, 0, 7, 2]))) + body1528)
     off = offset(p, scheme)
     d = H(key, bytes(p[:off]) + bytes(p[off + 32:]))
     p[off:off + 32] = d
@@ -84,7 +85,10 @@ def one_case(rng, role, own_offset_mod=None, peer_offset_mod=None, peer_kind=Non
         if peer_offset_mod is not None:
             i = 0 if scheme == 1 else 764
             pbody[i:i + 4] = pointer_bytes_for(peer_offset_mod, rng)
-        peer_p1, _, _ = make_p1(FP if peer_role == "client" else FMS, bytes(pbody), scheme)
+        head8 = None
+        if rng.chance(1, 2):       # peers with other time / version fields, including all-zero ones
+            head8 = rng.choice([b"\x00" * 4, rng.bytes(4)]) + rng.choice([b"\x00" * 4, bytes([9, 0, 124, 2]), bytes([10, 0, 32, 18]), bytes([0, 0, 0, 1]), rng.bytes(4)])
+        peer_p1, _, _ = make_p1(FP if peer_role == "client" else FMS, bytes(pbody), scheme, head8)
     own_p2, signed = lib_p2(role, peer_p1, rand[1524:])
     # the peer's packet 2: echo of our packet 1 (original handshake) or a signed packet (any content: not verified by the library)
     if peer_kind == "orig" or rng.chance(1, 4):
